@@ -102,6 +102,7 @@ def detect(name, tier='quick', checks=None):
 SIBLINGS = {
     'C01-r2-1': ['C01', 'C02'],   # label/goto renamed inconsistently: the renaming relation is C02's oracle
     'C01-r2-3': ['C01', 'C02'],   # name map shared between minifier runs: non-injective renaming (C02)
+    'C01-r3-2': ['C01', 'C02'],   # an unrenamed identifier collides with an earlier generated name: non-injective renaming (C02)
 }
 
 
